@@ -53,6 +53,12 @@ OBoxes(lo) == {OBox(p, q, r, s) : p \in lo..(lo + 1), q \in lo..(lo + 1), r \in 
 \* keep the regions whose shell (first piece) lies on the face
 Fit(set) == {pcs \in set : PWellFormed(pcs[1])}
 
+CornerTouch(a, b) ==
+    \/ (a.p[3] = b.p[1] /\ a.p[4] = b.p[2])
+    \/ (b.p[3] = a.p[1] /\ b.p[4] = a.p[2])
+    \/ (a.p[1] = b.p[3] /\ a.p[4] = b.p[2])
+    \/ (b.p[1] = a.p[3] /\ b.p[4] = a.p[2])
+
 RegionsOf(fam, part) ==
     CASE fam = "rect" -> {<<r>> : r \in PR(AllRects, part)}
       [] fam = "face" -> First(part, {<<WholeFace>>})
@@ -73,6 +79,9 @@ RegionsOf(fam, part) ==
                                     <<OBox(4, 4, 4, 4), Rect(OI - 2, OJ + 1, OI + 2, OJ + 3)>>,
                                     <<Rect(OI + 1, OJ - 2, OI + 6, OJ + 4)>>, <<Rect(OI - 5, OJ + 1, OI + 3, OJ + 6)>>,
                                     <<Rect(OI + 1, OJ - 3, OI + 8, OJ + 5), Rect(OI + 2, OJ - 1, OI + 4, OJ + 2)>>}))
+      \* loops touching at exactly one vertex: two shells, or two holes of a shell listed before it
+      [] fam = "touch" -> UNION {{<<r1, r2>> : r2 \in {r \in AllRects : CornerTouch(r1, r)}} : r1 \in PR(AllRects, part)}
+                          \cup UNION {{<<h1, h2, Hull>> : h2 \in {h \in HolesIn : CornerTouch(h1, h)}} : h1 \in PR(HolesIn, part)}
       [] fam = "island" -> {<<Hull, HoleHull, r>> : r \in {r \in PR(HoleRects, part) : StrictlyInside(r, HoleHull)}}
       [] fam = "facehole" -> {<<WholeFace, r>> : r \in {r \in PR(AllRects, part) : StrictlyInside(r, WholeFace)}}
       [] fam = "stair" -> First(part,
@@ -174,9 +183,24 @@ Step == t[4]
 KV == t[5]
 
 \* ---- tables of one shape -------------------------------------------------------------------
+\* When two or more loops of a region touch at a vertex, every loop through that vertex is
+\* rotated so that it starts there (the vertex becomes V0 of edge 0 when such a loop comes first):
+\* the lax shapes anchor their containment at the first vertex of the first loop.
+RangeOf(l) == {l[k] : k \in 1..Len(l)}
+SharedVerts(ls) == {v \in UNION {RangeOf(ls[a]) : a \in 1..Len(ls)} :
+                       Cardinality({a \in 1..Len(ls) : v \in RangeOf(ls[a])}) >= 2}
+RotTo(l, v) ==
+    IF v \notin RangeOf(l) THEN l
+    ELSE LET k == CHOOSE k \in 1..Len(l) : l[k] = v
+         IN  Explicit([m \in 1..Len(l) |-> l[((k + m - 2) % Len(l)) + 1]])
+RotateToShared(ls) ==
+    LET sv == SharedVerts(ls)
+    IN  IF sv = {} THEN ls
+        ELSE LET v == CHOOSE v \in sv : \A w \in sv : v[1] * 1000 + v[2] <= w[1] * 1000 + w[2]
+             IN  Explicit([k \in 1..Len(ls) |-> RotTo(ls[k], v)])
 ShapeLoops(sh) ==
     IF sh.dim # 2 THEN <<sh.verts>>
-    ELSE LET ls == RLoops(sh.pcs, sh.step)
+    ELSE LET ls == RotateToShared(RLoops(sh.pcs, sh.step))
          IN  IF sh.inv THEN [k \in 1..Len(ls) |-> Explicit(RevSeq(ls[k]))] ELSE ls
 ShapeEdges(sh) ==
     IF sh.dim = 2 THEN LET ls == ShapeLoops(sh) IN Flatten([k \in 1..Len(ls) |-> LoopEdges(ls[k])])
@@ -207,6 +231,9 @@ ShapeRec(sh, num, kv) ==
          cclass |-> IF sh.dim = 2 /\ WithCells /\ kind \in {"Loop", "Polygon"}
                     THEN [d \in 1..3 |-> IF sh.inv THEN Flip(CellClassM(sh.pcs, d - 2), <<1, 0, 4, 3, 2>>) ELSE CellClassM(sh.pcs, d - 2)]
                     ELSE <<>>,
+         \* cells below level G+1: demanded answers by the class of the level-(G+1) ancestor
+         deepC |-> [k \in 1..5 |-> DeepContains(k - 1)],
+         deepI |-> [k \in 1..5 |-> DeepIntersects(k - 1)],
          met |-> IF WithCells THEN [k \in 1..Len(edges) |-> Met(edges[k])] ELSE <<>>]
 
 \* ---- query segments --------------------------------------------------------------------------
@@ -231,7 +258,7 @@ QuerySeq == SetToSortSeq(Queries, QLess)
 
 \* ---- model-level theorems ---------------------------------------------------------------
 RegionOK(pcs, step) == /\ RWellFormed(pcs) /\ LoopTheorems(pcs, step)
-                       /\ (Prove => ParityTheorem(pcs, step) /\ LocalRuleTheorems(pcs, step))
+                       /\ (Prove => ParityTheorem(pcs, step) /\ LocalRuleTheorems(pcs, step) /\ DeepRuleTheorem(pcs))
 
 CaseTheorems ==
     Full =>
